@@ -18,6 +18,9 @@ fn run(line: &str) -> String {
     let mut it = line.split_whitespace();
     let entry = it.next().unwrap();
     let data = unhex(it.next().unwrap());
+    if entry == "sll" {
+        return hdrlax::run_sll(&data);
+    }
     let (h, s) = if entry == "eth" {
         (PacketHeaders::from_ethernet_slice(&data), SlicedPacket::from_ethernet(&data))
     } else if entry == "ip" {
